@@ -63,13 +63,46 @@ def scenarios(n):
         ("read-big-data", [], f"getattr @{ka} @{n['big']} 3:64 11:20000"),
         ("search-all", [], f"findinit @{ka}"),
     ]
+    # an object file of a little more than 4096 bytes whose LAST records are the attribute maps and the mechanism set: stdio hands the first 4096 bytes to the kernel while
+    # the file is written, a process death afterwards leaves exactly them - the cut sweeps (8 bytes a step, `cut<d>` = d bytes missing) through those records
+    for d in MECH_CUTS:
+        S.append(("create-mechs-cut%d" % d, [], mech_create_line(ka, MECH_BASE[0] + d if MECH_BASE[0] else 0)))
     return S
+
+
+MECH_CUTS = list(range(8, 208, 8))
+MECH_BASE = [0]        # CKA_ID length that makes the object file exactly 4096 bytes (measured once per check, see calibrate_mechs)
+
+
+def mech_create_line(ka, idlen):
+    mechs = "".join(ul(m) for m in (0x1081, 0x1082, 0x1085, 0x1086, 0x1087, 0x2109, 0x210a, 0x108a))
+    return (f"create @{ka} 0={ul(4)} 100={ul(0x1f)} 1=01 2=00 3={hx('mech-key')} 102={'5a' * idlen if idlen else '.'} 11={'0f' * 32} 104=01 105=01 106=01 107=01 162=01 103=00 "
+            f"40000211={{0={ul(4)};162=01;3={hx('inner')}}} 40000212={{104=01;105=01}} 40000600={mechs}")
+
+
+def calibrate_mechs(variant="plain"):
+    """measure the object file of `mech_create_line` with an empty CKA_ID and set MECH_BASE so that file size = 4096 + d for scenario cut<d>"""
+    setup, names = scene()
+    with core.Scratch("calib") as scr:
+        before = set()
+        ops = "\n".join(setup + [mech_create_line(names["ka"], 0), "fini"]) + "\n"
+        rc, out, err = core.run_harness(ops, scr.dir, variant)
+        best = None
+        for root, _, files in os.walk(os.path.join(scr.dir, "tokens")):
+            for f in files:
+                if f.endswith(".object") and f != "token.object":
+                    b = open(os.path.join(root, f), "rb").read()
+                    if b"mech-key" in b: best = len(b)
+    if best is None or best >= 4096: raise RuntimeError("calibration of the mechanism-set scenario failed (size %s, rc %s)" % (best, rc))
+    MECH_BASE[0] = 4096 - best
+    return best
 
 
 def recovery_ops(maxobj=12):
     L = []
     def op(s): L.append(s); return len(L)
-    op("init"); op("slots")
+    # locking enabled: the loader's error branches run under the objects' mutexes - a recovery that deadlocks on itself is ended by the harness's alarm
+    op("initos"); op("slots")
     for lab, sos, users in (("tokA", [SO_A], [NEW, USER_A]), ("tokB", [NEW, SO_B], [NEW, USER_B])):
         k = op(f"open t:{hx(lab)} 6")
         for p in sos: op(f"login @{k} 0 {hx(p)}"); op(f"logout @{k}")
@@ -78,7 +111,7 @@ def recovery_ops(maxobj=12):
         op(f"findinit @{k}"); f = op(f"find @{k} 200"); op(f"findfinal @{k}")
         for i in range(maxobj):
             op(f"getattr @{k} @{f}.{i} 0:8 3:64 100:8 102:64 162:1 103:1")
-            op(f"getattr @{k} @{f}.{i} 11:20000")
+            op(f"getattr @{k} @{f}.{i} 11:20000 40000600:80")
         op(f"close @{k}")
     op("fini")
     return "\n".join(L) + "\n"
@@ -102,7 +135,7 @@ def pairs_of(transcript):
 CONTROL = {"forkrun", "fsops", "forkdone", "recover", "recoverdone", "snapshot", "restore"}
 
 
-def run_scenario(name, pre, call, mode="crash", points=None, variant="plain"):
+def run_scenario(name, pre, call, mode="crash", points=None, variant="plain", last=None):
     """-> dict(n_ops, oplog, results: list of per-point dicts)"""
     setup, names = scene()
     sc = [s for s in scenarios(names) if s[0] == name][0]
@@ -118,6 +151,7 @@ def run_scenario(name, pre, call, mode="crash", points=None, variant="plain"):
         nops = int(fs[0][1].split()[1]); oplog = fs[0][1].split()[2].strip(",").split(",") if nops else []
         ks = list(range(1, nops + 1))
         if points is not None: ks = [k for k in ks if k in points]
+        if last: ks = [k for k in ks if oplog[k - 1] == "fflush"][-last:]       # the process dies BEFORE one of the last flushes: the file holds what stdio handed over by itself
         # phase 2: one process, all points
         body = []
         for k in ks:
